@@ -13,7 +13,7 @@ from replay import drivers      # noqa: E402
 
 
 def rerun_battery(script):
-    p = subprocess.run(['/venv/bin/python', os.path.join(ROOT, script)], capture_output=True, text=True, timeout=900, cwd='/repo', env=dict(os.environ, PYTHONPATH='/repo'))
+    p = subprocess.run(['/venv/bin/python', os.path.join(ROOT, script)], capture_output=True, text=True, timeout=900, cwd=os.environ.get('PYVC_REPO', '/repo'), env=dict(os.environ, PYTHONPATH=os.environ.get('PYVC_REPO', '/repo')))
     last = (p.stdout.strip().splitlines() or [''])[-1]
     print('battery   :', script); print('result    :', last[:1500])
     if p.returncode not in (0, 1):
